@@ -534,17 +534,29 @@ func (e *Engine) verifyFuncPass(fn *ssa.Function, fc *FuncContract, sweepProps [
 		st      *State
 		results []Val
 		suffix  string
+		block   *ssa.BasicBlock
+	}
+	hasInternal := false
+	for _, c := range fc.Ensures {
+		hasInternal = hasInternal || c.Internal
 	}
 	var points []exitPoint
-	if len(res.exits) > 1 && len(res.exits) <= 12 {
+	if (len(res.exits) > 1 && len(res.exits) <= 12) || (hasInternal && len(res.exits) >= 1) {
 		for i, e := range res.exits {
-			points = append(points, exitPoint{e.st, e.results, fmt.Sprintf("@ret%d", i+1)})
+			points = append(points, exitPoint{e.st, e.results, fmt.Sprintf("@ret%d", i+1), e.block})
 		}
 	} else {
-		points = []exitPoint{{res.st, res.results, ""}}
+		points = []exitPoint{{res.st, res.results, "", nil}}
 	}
 	for _, pt := range points {
+		res.fr.exitBlock = pt.block
 		vc.exitObligations(fn, fc, args, bind, pt.st, pt.results, pt.suffix, res.fr)
+	}
+	for _, c := range fc.Ensures {
+		if c.Internal && vc.internalSeen[c.Name] == 0 {
+			// vacuity guard: an internal clause must be checked at one exit at least
+			panic(unsupported("internal clause #" + c.Name + " applies at no exit (a local it mentions is never in scope at a return)"))
+		}
 	}
 	return vc
 }
@@ -586,7 +598,32 @@ func (vc *VC) exitObligations(fn *ssa.Function, fc *FuncContract, args, bind []V
 				ie.atExit = true
 				cenv = &ie
 			}
-			g := cenv.clause(c)
+			var g *Term
+			if c.Internal {
+				applies := func() (ok bool) {
+					defer func() {
+						if r := recover(); r != nil {
+							if _, unset := r.(unsetLocal); unset {
+								ok = false
+								return
+							}
+							panic(r)
+						}
+					}()
+					g = cenv.clause(c)
+					return true
+				}()
+				if vc.internalSeen == nil {
+					vc.internalSeen = map[string]int{}
+				}
+				if !applies {
+					vc.internalSeen[c.Name] += 0
+					continue
+				}
+				vc.internalSeen[c.Name]++
+			} else {
+				g = cenv.clause(c)
+			}
 			vc.oblige(res.st, "ensures", vc.oname(c.Name+suffix), vc.pos(fn.Pos()), "postcondition: "+c.Src, g, c.Props)
 			// later postconditions may use earlier ones as lemmas (each is still proved on its own)
 			untag := vc.withTag('L')
